@@ -785,7 +785,13 @@ func (c *Client) Do(ctx context.Context, q Query) (err error) {
 		}
 	})
 	g.Go(func() error {
-		<-done
+		select {
+		case <-done:
+		case <-ctx.Done():
+			// Not waiting for the receive loop: it can be blocked in the
+			// middle of a packet, where no read deadline applies, and would
+			// never observe the cancellation.
+		}
 		// Handling query cancellation if needed.
 		if gotException.Load() {
 			return nil
